@@ -8,7 +8,7 @@
    implementation's own write -> read round trip; see DESIGN.md for what is assumed of
    strconv and fmt. *)
 From Coq Require Import ZArith QArith NArith Arith List String Ascii Bool.
-From Inkfem Require Import Model.Types Model.Regex Gen.GenRegex Model.Read Proofs.ReadProofs
+From Inkfem Require Import Model.Types Model.Regex Gen.GenRegex Model.Read Proofs.ReadProofs Proofs.NumberProofs
   Model.Template Gen.GenTemplates Proofs.TemplateProofs.
 Import ListNotations.
 Local Open Scope string_scope.
@@ -68,6 +68,31 @@ Example C10_number_spellings :
   parse_float "1e400" = NumOverflow /\ parse_float "1." = NumSyntax /\ parse_float ".5" = NumSyntax /\
   parse_float "1e" = NumSyntax /\ parse_float "2.5e-900" = NumOk 0%Q.
 Proof. vm_compute. repeat split. Qed.
+
+(* ... for every numeral, not only for examples.  A numeral is a sign, a non-empty run of integer digits and a run of
+   fraction digits (at most 300 digits in all), with or without an exponent part; the number reader of the model returns
+   exactly its value:  +-(all digits) / 10^(fraction digits)  and, with the exponent e,  +-(all digits) x 10^(e - fraction
+   digits)  (scale10 z k is z x 10^k).  So whatever a writer prints in this grammar is read back as the number it stands
+   for, and two spellings of one value are read alike. *)
+Theorem C10_every_decimal_numeral_is_read_as_its_value : forall m : numeral, well_formed m ->
+  exists q, parse_float (numeral_string m) = NumOk q /\ (q == numeral_value m)%Q.
+Proof. exact numeral_is_read_as_its_value. Qed.
+Print Assumptions C10_every_decimal_numeral_is_read_as_its_value.
+
+Theorem C10_every_numeral_with_an_exponent_is_read_as_its_value : forall (m : numeral) (e : exponent), well_formed_e m e ->
+  exists q, parse_float (numeral_string m ++ exponent_string e) = NumOk q /\ (q == enumeral_value m e)%Q.
+Proof. exact numeral_with_exponent_is_read_as_its_value. Qed.
+Print Assumptions C10_every_numeral_with_an_exponent_is_read_as_its_value.
+
+Theorem C10_scale10_is_multiplication_by_a_power_of_ten : forall z k : Z, (scale10 z k == inject_Z z * (10 # 1) ^ k)%Q.
+Proof. exact scale10_is_a_power. Qed.
+Print Assumptions C10_scale10_is_multiplication_by_a_power_of_ten.
+
+Theorem C10_spellings_of_one_value_are_read_alike : forall m m' : numeral, well_formed m -> well_formed m' ->
+  (numeral_value m == numeral_value m')%Q ->
+  exists q q', parse_float (numeral_string m) = NumOk q /\ parse_float (numeral_string m') = NumOk q' /\ (q == q')%Q.
+Proof. exact spellings_of_one_value_are_read_alike. Qed.
+Print Assumptions C10_spellings_of_one_value_are_read_alike.
 
 (* the documented grammar on a small file, every kind of line, read inside Coq *)
 Example C10_reads_a_definition :
